@@ -298,6 +298,7 @@ func (c *Ctx) ruleJSONEscapes(rule string) {
 			} else {
 				R.Check(clauseReturnsError(info, cc), rule, fi.Key+" invalid UTF-8", P.Pos(cc), "selects an error-returning clause", "an invalid UTF-8 byte inside a string does not select an error-returning clause")
 			}
+			c.verbatimCopyBounded(rule, fi, sw, "internal/encoding/json.indexNeedEscapeInString", func(b int64) bool { return b < 0x20 || b == '"' || b == '\\' }, false)
 			// the escape switch: tag defined from in[1]
 			var esc *ast.SwitchStmt
 			walk(sw.Body, func(x ast.Node) bool {
@@ -354,6 +355,7 @@ func (c *Ctx) ruleJSONEscapes(rule string) {
 		} else {
 			R.Check(clauseReturnsError(info, cc), rule, fi.Key+" invalid UTF-8", P.Pos(cc), "returns an error", "invalid UTF-8 is written to the output instead of being reported")
 		}
+		c.verbatimCopyBounded(rule, fi, sw, "internal/encoding/json.indexNeedEscapeInString", func(b int64) bool { return b < 0x20 || b == '"' || b == '\\' }, false)
 		must := []int64{'"', '\\'}
 		for ch := int64(0); ch < 0x20; ch++ {
 			must = append(must, ch)
